@@ -531,6 +531,33 @@ func (ev *Evaluator) call(e *Expr) Val {
 		}
 		ev.fail("arr: no leaf %s", e.Args[1].Name)
 		return nil
+	case "harr":
+		// harr(ptrseq, "Leaf.Path"): current values of a leaf of the pointees of a []*T, as an array
+		if len(e.Args) != 2 || e.Args[1].Op != "str" {
+			ev.fail("harr(seq, \"leaf\")")
+		}
+		sq, ok := ev.Eval(e.Args[0]).(*SeqV)
+		if !ok {
+			ev.fail("harr: not a sequence")
+		}
+		pt, isPtr := sq.Elem.Underlying().(*types.Pointer)
+		if !isPtr {
+			ev.fail("harr: elements are not pointers")
+		}
+		if sq.Leaves == nil {
+			sq = m.concToSym(sq)
+		}
+		for _, l := range leavesOf(pt.Elem()) {
+			if l.Path == e.Args[1].Name {
+				h := m.heapArr(pt.Elem(), l)
+				a := E.D.Fresh("harr_"+l.Path, ArrSort(SInt, l.Sort))
+				m.AssumeT(T(SBool, fmt.Sprintf("(forall ((i Int)) (! (=> (and (<= 0 i) (< i %s)) (= (select %s i) (select %s (select %s i)))) :pattern ((select %s i))))",
+					sq.Len.S, a.S, h.S, sq.Leaves[0].S, a.S)))
+				return a
+			}
+		}
+		ev.fail("harr: no leaf %s", e.Args[1].Name)
+		return nil
 	case "result":
 		n, _ := isIntLit(ev.term(ev.Eval(e.Args[0])))
 		return ev.Results[n.Int64()]
